@@ -242,14 +242,24 @@ impl Prop for C18 {
         let mut ch = Choices::new(choices);
         let n = ch.range(1, 8);
         let mut ops = vec![];
+        // options changed so far: a later change often goes back to one of them (to its default
+        // or to another value), so that "set, build, set back, build" is common
+        let mut touched_opts: Vec<usize> = vec![];
         for _ in 0..n {
             let op = match ch.weighted(&[4, 2, 1, 4, 2, 1, 3, 1]) {
                 0 => Op::EditGrammar(ch.pick(NGRAMMARS)),
                 1 => Op::EditLexer(ch.pick(LEXERS.len())),
                 2 => Op::Touch,
                 3 => {
-                    let k = ch.pick(OPTIONS.len());
-                    Op::SetOption(OPTIONS[k].0.to_string(), ch.pick(OPTIONS[k].1))
+                    if !touched_opts.is_empty() && ch.chance(1, 3) {
+                        let k = touched_opts[ch.pick(touched_opts.len())];
+                        let v = if ch.chance(1, 2) { 0 } else { ch.pick(OPTIONS[k].1) };
+                        Op::SetOption(OPTIONS[k].0.to_string(), v)
+                    } else {
+                        let k = ch.pick(OPTIONS.len());
+                        touched_opts.push(k);
+                        Op::SetOption(OPTIONS[k].0.to_string(), ch.pick(OPTIONS[k].1))
+                    }
                 }
                 4 => Op::BreakGrammar(ch.pick(BROKEN_GRAMMARS.len())),
                 5 => Op::BreakLexer,
@@ -420,7 +430,13 @@ impl Prop for C18 {
                             // a grammar with test_files whose parser module is served from the
                             // cache: the test files are not parsed again although the lexer (or the
                             // files) changed (known finding, see DESIGN.md)
-                            let test_files_skipped = r.combined && gtext.contains("test_files") && cr.lexer_error.as_deref().map(|e| e.contains("While parsing")).unwrap_or(false);
+                            // (the same early return also skips the report of header keys nobody
+                            // read: after switching from the one-call flow to the two builders the
+                            // cached parser build succeeds although a clean one rejects the key)
+                            let test_files_skipped = gtext.contains("test_files")
+                                && r.regenerated != Some(true)
+                                && ((r.combined && cr.lexer_error.as_deref().map(|e| e.contains("While parsing")).unwrap_or(false))
+                                    || (!r.combined && cr.parser_error.as_deref().map(|e| e.contains("Unused keys in header: test_files")).unwrap_or(false)));
                             if test_files_skipped && !case.probe_test_files_not_rerun {
                                 o.class("known:test-files-not-rerun-on-cached-parser");
                                 let _ = std::fs::remove_dir_all(&cdir);
